@@ -839,6 +839,9 @@ func scnPreemptPH(name string) *world.Scenario {
 	return s
 }
 
+// registered when the package is initialised: the worker processes look the shard function up by name
+var c08Part = c14Part("C08", "c08ilv", "final-state-C08-", func(n string) bool { return strings.HasPrefix(n, "S18-") || strings.HasPrefix(n, "S4-") })
+
 func checkC07C08(prop string) func(tier string, seed int64) *CustomResult {
 	return func(tier string, seed int64) *CustomResult {
 		res := runSharded(strings.ToLower(prop), tier, shardCount())
@@ -874,6 +877,25 @@ func checkC07C08(prop string) func(tier string, seed int64) *CustomResult {
 				res.Coverage["rule_"+k] = cur + int64(c)
 			}
 		}
+		if prop == "C08" {
+			// (3) queue preemption and quota change preemption are different goroutines: the preempting ledger over all
+			// their interleavings (an announced victim that is still allocated stays counted and marked)
+			r3 := c08Part(tier)
+			res.Violations = append(res.Violations, r3.Violations...)
+			res.Harness = append(res.Harness, r3.Harness...)
+			for k, x := range r3.Coverage {
+				if k == "exhaustive" {
+					if b, ok := x.(bool); ok && !b {
+						res.Coverage["exhaustive"] = false
+					}
+					continue
+				}
+				res.Coverage["interleaving_"+k] = x
+			}
+			if n, ok := r3.Coverage["executions"].(int64); ok {
+				trans += int(n)
+			}
+		}
 		if prop == "C07" {
 			// (3) the marking of victims races with other goroutines (RM release handler, placeholder timer): all
 			// interleavings of the preemption scenarios with at most one preemption (two in the thorough tier) at lock
@@ -903,7 +925,7 @@ func init() {
 	ShardFuncs["c07"] = c07Shard("C07")
 	ShardFuncs["c07ilv"] = func(tier string, shard, n int) *CustomResult {
 		r := c14ShardSel(tier, shard, n, func(name string) bool {
-			return strings.HasPrefix(name, "S4-") || strings.HasPrefix(name, "S13-") || strings.HasPrefix(name, "S14-")
+			return strings.HasPrefix(name, "S4-") || strings.HasPrefix(name, "S13-") || strings.HasPrefix(name, "S14-") || strings.HasPrefix(name, "S18-")
 		})
 		var keep []mc.Found
 		for _, f := range r.Violations {
@@ -930,7 +952,7 @@ func init() {
 	}
 	registerCheck(&CheckDef{Prop: "C07", Level: "model_checking", Technique: "exhaustive product of small preemption worlds built on the real core plus explicit-state search of preemption scenarios; every PREEMPTED_BY_SCHEDULER release is judged from the pre-state against the eligibility rules", Custom: checkC07C08("C07"), Replay: replayC07,
 		Assumptions: []string{"the priority rule is only judged where no priority fence or offset is configured on either path", "preemption attempt frequency 0, queue preemption delay 1s with asks created in 1970 (old) or one hour in the future (young)"}})
-	registerCheck(&CheckDef{Prop: "C08", Level: "model_checking", Technique: "exhaustive product of small preemption worlds built on the real core plus explicit-state search of preemption scenarios (incl. quota changes and QUOTA_PREEMPT); guarantee, shortfall and preempting-ledger rules on every step", Custom: checkC07C08("C08"),
+	registerCheck(&CheckDef{Prop: "C08", Level: "model_checking", Technique: "exhaustive product of small preemption worlds built on the real core plus explicit-state search of preemption scenarios (incl. quota changes and QUOTA_PREEMPT); guarantee, shortfall and preempting-ledger rules on every step", Custom: checkC07C08("C08"), Replay: replayC07,
 		Assumptions: []string{"'above the guaranteed share at the moment each victim is taken' is judged by its order-free necessary condition", "quota preemption claim bound is judged leniently (task granularity)"}})
 }
 
@@ -942,7 +964,11 @@ func replayC07(fp string, raw interface{}) int {
 		}
 	}
 	want, _ := json.Marshal(raw)
-	cr := checkC07C08("C07")("quick", 0)
+	prop := "C07"
+	if strings.HasPrefix(fp, "C08:") {
+		prop = "C08"
+	}
+	cr := checkC07C08(prop)("quick", 0)
 	for _, f := range cr.Violations {
 		got, _ := json.Marshal(f.Custom)
 		if f.Viol.FP == fp && string(got) == string(want) {
